@@ -316,9 +316,11 @@ impl Prop for C10 {
         };
         let rel = run(false);
         let abs = run(true);
-        if rel != abs {
-            out.feat("skipped_ambiguous_restart_semantics");
-            return;
+        // look-around at restart positions (`^`, `\b`) can tell the two readings of "starting after
+        // the text that was just matched" apart: then either reading is accepted, per mode
+        let ambiguous = rel != abs;
+        if ambiguous {
+            out.feat("ambiguous_restart_semantics_either_reading_accepted");
         }
         let source = "pass";
         let tree = parse_python(source);
@@ -375,29 +377,39 @@ impl Prop for C10 {
                 },
                 Real::Error(e, _) => Err(e.root.clone()),
             };
-            match (&rel, &observed) {
-                (Expect::Done(want), Ok(got)) => {
-                    if want != got {
-                        out.violation(&format!("C10:wrong-sequence:{}", mode), &format!("{} scan ran {:?}, specified {:?}", mode, got, want), case());
-                        return;
+            let judge = |expect: &Expect| -> Result<&'static str, (String, String)> {
+                match (expect, &observed) {
+                    (Expect::Done(want), Ok(got)) => {
+                        if want != got {
+                            return Err((format!("C10:wrong-sequence:{}", mode), format!("{} scan ran {:?}, specified {:?}", mode, got, want)));
+                        }
+                        Ok("sequence_as_specified")
+                    }
+                    (Expect::Done(want), Err(root)) => Err((format!("C10:spurious-error:{}", mode), format!("{} scan failed with {} but the specified sequence {:?} has no empty match", mode, root, want))),
+                    (Expect::MustFail(prefix), Ok(got)) => Err((format!("C10:empty-match-accepted:{}", mode), format!("{} scan selected an empty match after {:?} and still returned {:?}", mode, prefix, got))),
+                    (Expect::MustFail(_), Err(_)) => Ok("empty_selected_match_rejected_at_runtime"),
+                    (Expect::MayFail(_), Err(_)) => Ok("empty_other_arm_error"),
+                    (Expect::MayFail(prefix), Ok(got)) => {
+                        if got.len() < prefix.len() || &got[..prefix.len()] != prefix.as_slice() {
+                            return Err((format!("C10:wrong-sequence:{}", mode), format!("{} scan ran {:?}, specified prefix {:?}", mode, got, prefix)));
+                        }
+                        Ok("empty_other_arm_continued")
                     }
                 }
-                (Expect::Done(want), Err(root)) => {
-                    out.violation(&format!("C10:spurious-error:{}", mode), &format!("{} scan failed with {} but the specified sequence {:?} has no empty match", mode, root, want), case());
+            };
+            match (judge(&rel), if ambiguous { Some(judge(&abs)) } else { None }) {
+                (Ok(f), _) => out.feat(f),
+                (Err(_), Some(Ok(f))) => {
+                    out.feat(f);
+                    out.feat("absolute_offset_reading_observed");
+                }
+                (Err((sig, msg)), None) => {
+                    out.violation(&sig, &msg, case());
                     return;
                 }
-                (Expect::MustFail(prefix), Ok(got)) => {
-                    out.violation(&format!("C10:empty-match-accepted:{}", mode), &format!("{} scan selected an empty match after {:?} and still returned {:?}", mode, prefix, got), case());
+                (Err((sig, msg)), Some(Err((_, msg2)))) => {
+                    out.violation(&sig, &format!("{} (reading the remaining text); {} (reading absolute offsets)", msg, msg2), case());
                     return;
-                }
-                (Expect::MustFail(_), Err(_)) => out.feat("empty_selected_match_rejected_at_runtime"),
-                (Expect::MayFail(_), Err(_)) => out.feat("empty_other_arm_error"),
-                (Expect::MayFail(prefix), Ok(got)) => {
-                    if got.len() < prefix.len() || &got[..prefix.len()] != prefix.as_slice() {
-                        out.violation(&format!("C10:wrong-sequence:{}", mode), &format!("{} scan ran {:?}, specified prefix {:?}", mode, got, prefix), case());
-                        return;
-                    }
-                    out.feat("empty_other_arm_continued");
                 }
             }
         }
